@@ -1,7 +1,6 @@
 package exec
 
 import (
-	"encoding/json"
 	"go/types"
 	"math/big"
 	"strconv"
@@ -142,17 +141,6 @@ func (in *Interp) installStubs3() {
 		}
 		n := &MapV{KT: m.KT, VT: m.VT, Keys: append([]Value(nil), m.Keys...), Vals: append([]Value(nil), m.Vals...)}
 		return Iface{T: a[0].(Iface).T, V: n}
-	}
-	// ---- encoding/json (concrete only) ----
-	S["encoding/json.Unmarshal"] = func(in *Interp, a []Value) Value {
-		b := in.concreteBytes(a[0], "json.Unmarshal")
-		var s string
-		if err := json.Unmarshal(b, &s); err != nil {
-			return Iface{T: errString, V: Str{S: err.Error()}}
-		}
-		p := a[1].(Iface).V.(Ptr)
-		in.store(p, Str{S: s})
-		return Iface{}
 	}
 	// ---- math/big (rest) ----
 	S["(*math/big.Int).Abs"] = func(in *Interp, a []Value) Value {
